@@ -160,6 +160,10 @@ class Corpus:
         if repr:
             lines.append(f"#[repr({repr})]")
         lines.append(f"pub enum {name} {{")
+        # an explicit discriminant may be given as (source text, value): `b'A'`, `1 << 4`, a named constant
+        variants = [(vn, fields, d, frm) for vn, fields, d, frm in variants]
+        dval = {vn: (d[1] if isinstance(d, tuple) else d) for vn, _, d, _ in variants}
+        variants = [(vn, fields, (d[0] if isinstance(d, tuple) else d), frm) for vn, fields, d, frm in variants]
         for vn, fields, discr, frm in variants:
             if frm:
                 lines.append(f'    #[savefile_versions = "{frm}.."]')
@@ -178,7 +182,7 @@ class Corpus:
         self.meta["types"].append({
             "id": f"sfcorpus::{mod}::{name}", "kind": "enum", "repr": repr, "family": family, "version": version,
             "cur_version": cur_version,
-            "variants": [{"name": vn, "discr": discr, "from": frm,
+            "variants": [{"name": vn, "discr": dval[vn], "from": frm,
                           "fields": [{"name": f.name, "ty": qualify(f.ty, mod), "wire_ty": qualify(f.wire_ty(), mod), "from": f.frm,
                                       "to": f.to, "ignore": f.ignore, "removed": f.removed,
                                       "default": list(f.default) if f.default else None, "conv": None} for f in fields]}
@@ -270,6 +274,11 @@ def fam_prim(c):
     L += c.enum(mod, "E_C_explicit_ne", [("A", [], 2, 0), ("B", [], 5, 0)], repr="C", family="ENUM")
     L += c.enum(mod, "E_u8C_explicit_fields_ne", [("A", F0("u32"), 2, 0), ("B", F0("u32"), 5, 0)], repr="u8, C", family="ENUM")
     L += c.enum(mod, "E_C_unit", [("A", [], None, 0), ("B", [], None, 0)], repr="C", family="ENUM")
+    # explicit discriminants that are not integer literals (byte literal, shift expression, named constant) and differ from the index
+    L.append("pub const E_NONLIT_BASE: u8 = 0x20;")
+    L += c.enum(mod, "E_u8_nonliteral", [("A", [], ("b'A'", 65), 0), ("B", [], ("1 << 4", 16), 0), ("C", [], ("E_NONLIT_BASE", 32), 0)],
+                repr="u8", family="ENUM")
+    L += c.enum(mod, "E_i8_negative", [("A", [], ("-1", -1), 0), ("B", [], ("0", 0), 0)], repr="i8", family="ENUM")
     L += c.enum(mod, "E_plain_mixed", [("A", [], None, 0), ("B", F0("u32", "String"), None, 0),
                                        ("C", [Field("x", "u8"), Field("y", "Vec<u8>")], None, 0)], family="ENUM")
     L += c.enum(mod, "E_u16_mixed", [("A", [], None, 0), ("B", F0("u64"), None, 0)], repr="u16", family="ENUM")
